@@ -524,3 +524,92 @@ CHECKS["C19"].update({
              "CoercionError escapes the rule (also for a valid request executing another operation of the document); the theorems carry that availability "
              "hypothesis (ValidDeclR) and unavailable_directive_variable_raises witnesses the boundary."),
 })
+
+
+# ---------------------------------------------------------------------------------------------------------------
+# Addenda of the two bug-hunt rounds (appended to the texts above; obligation names are appended by manifest_gen.py).
+# ---------------------------------------------------------------------------------------------------------------
+def _add(k, text=None, note=None):
+    if text:
+        CHECKS[k]["text"] = CHECKS[k]["text"].rstrip() + " ADDED IN THE BUG-HUNT ROUNDS: " + text
+    if note:
+        CHECKS[k]["note"] = CHECKS[k].get("note", "").rstrip() + " " + note
+
+
+CHECKS["C11"]["text"] = CHECKS["C11"]["text"].replace("build_exact_of_defaultsAgree", "build_exact_of_baseDefaults").replace(
+    "where the only semantic premise left is DefaultsAgree", "where the semantic premises left are BaseDefaults / SelfDefaults (formerly DefaultsAgree)")
+_add("C01", "number_lookahead_pinned and june2018_glued_number_refuted (the pinned look-ahead restriction LA1 is isolated as an explicit clause of the "
+            "lexical spec), model instances for the block-less-definition ambiguity (LA2: the grammar spec takes the greedy reading, `nla .curlyL`), an "
+            "invalid-UTF-8 bytes oracle over all entry points (decoding is outside the Lean model: stated).",
+     "Known findings LA1, LA2 (June-2018 readings pinned by the suite / needing backtracking). Repaired: B8 (UnicodeDecodeError for invalid UTF-8 bytes).")
+_add("C02", "paired surrogate escapes in model, spec (pairedUnits / stringCharacters) and escape_spec_sound/complete after fix U1; JSON-decoding reference "
+            "oracle for escapes; literal-reading oracle for the Document span.",
+     "Known finding P5 (Document span includes surrounding ignored text; pinned by 15 tests). Repaired: U1.")
+_add("C03", "print_deep_list / print_deep_list_type (the model printer is total at every nesting depth), a deep-nesting stream per recursive position with "
+            "measured boundaries in the evidence.",
+     "Known findings R7 (print_ast raises RecursionError on deeply nested documents the parser accepts; nine positions).")
+_add("C04", "worlds whose resolvers mutate their list / dict arguments (per-execution marks: ArgumentSharedBetweenExecutions, ArgumentLeakedFromEarlierRequest), "
+            "resolvers calling info.selected_fields(), type resolvers returning type OBJECTS (own schema and clone), argument names colliding with the "
+            "resolver protocol, deep-nesting probe for the generic executor.",
+     "Known finding H4 (generic Executor RecursionError from depth 77 through [T!]!). Repaired: H2 (defaults handed out uncopied), H5 (argument values shared "
+     "between executions), H6 (arguments named root/context/info).")
+_add("C05", "rules_accept_responds, bridge_field_args, bridge_rejected_argument (the bridge carries argument tables computed by the C07 model), "
+            "fragsAcyclic_of_noCycles, fragment-cycle-behind-entry documents, flat fragment-chain probe.",
+     "Known finding H2 (RecursionError on a flat chain of about 975 fragments). Repaired: H1 (selected_fields strictness), overlap memo (RecursionError on a "
+     "cycle through a field's sub-selection).")
+_add("C06", "headline theorems are verdict_iff_all, verdict_iff_all_std, accepted_spec_valid_all, attribution_all (Props/C06_head.lean) and "
+            "spec_valid_accepted_all; the chain model follows the repaired SkipNode semantics (every member enters, the entered are left in reverse): "
+            "typeinfo_balanced / selections_balanced / definitions_balanced for EVERY rule list, skip_reports (a rule that skips has just added an error, all 26 "
+            "rules), monoAlg, silent_run_document_not_skipped; list-item type information (TI.itemOf, Props/C06_list_items.lean) after the enter_list_value "
+            "repair; the single-root-field clause is the specification's CollectFields restricted to keys (rule_single_field_subscriptions_iff re-proved; the "
+            "invariance theorems now exclude that one rule: 24 rules); overlap_memo_terminates / within_memo_terminates (the memoised overlap search terminates on "
+            "EVERY document, cyclic fragment graphs included, with an explicit fuel bound) — the verdict theorems still concern the un-memoised search (stated).",
+     "Repaired in these rounds: H3 (__typename in the response-shape check), enter_list_value (C06/1, C06/2, C07/1), H5 (silent SkipNode at custom scalars), "
+     "H6 (single root field through fragments), W2b/W3b/W8 (visitor). Variable-definition directives and fragment variable definitions are corpus- and "
+     "injector-tested against the real code only (model-does-not-cover, counted).")
+_add("C07", "litAdmitted / customHasParseLiteral with the guard re-extracted from value_from_ast (scalarLiteralGuard_spec), untypedLiteral (the stand-in "
+            "scalar's parse_literal), defaultScalarParse_spec (non-finite values refused at any depth, re-extracted), coerceInt_branches_spec after the bool "
+            "repair, nested-variable stream through the full entry point.",
+     "Known findings A9 (omitted variable inside an object / list literal; pinned), A10 (the stand-in scalar keeps number literals as text: inline differs from "
+     "variable; witness not CustomAgree). Repaired: E1 (enum reverse map), B1 (bool as Int).")
+_add("C08", "named probes run first in every run: generator history (isawaitable cache), request-aborting classes per configuration, odd exception classes "
+            "(StopIteration, StopAsyncIteration, BaseException) under all schedules with a confirmed watchdog, deep nesting per runtime, abort order.",
+     "Known findings H5 / H5b (deep nesting: thread pool never completes from 60 levels, generic executor RecursionError from 80), H6 (which of two "
+     "request-aborting siblings is reported depends on completion order). Repaired: H1, H3, H4.")
+_add("C09", "interleaving_stage: line-level interleavings of the chain callback against _next on a real one-worker pool, driven by a tracing hook "
+            "(library untouched), each failure confirmed by re-run.",
+     "Repaired: H1 (race in the serial chain introduced by an earlier repair).")
+_add("C10", "per-request worlds (context_value), late-workers stream and the self-check harness:foreign-world-record, non-string error messages, "
+            "non-finite values at custom-scalar positions (variables and results), extensions outside the documented contract counted separately.",
+     "Repaired: H1 (non-string messages), H2 (non-finite through the stand-in scalar).")
+_add("C12", "custom_structured_roundtrip (structured custom-scalar defaults print and read back), h12_width_boundary (the text-level theorems assume lines "
+            "of at most 120 - indent characters: a longer description line is re-wrapped, finding H12).",
+     "Known findings H12, C12/1, C12/5, C12/6, C12/7 (see known_findings.json).")
+_add("C13", "cache_tracks_assignments (plain assignment of resolvers at the four places, Op.assignResolver in the cache machine), signature_of_the_callable "
+            "(the callable the executor calls is judged: follow_wrapped=False re-extracted), wrapped / partial / bound / callable-instance resolver forms.",
+     "Repaired: H1-H9, HH1, HH2.")
+_add("C14", "class tags of leaf types through extension (extend_keeps_leaf_class), type resolvers returning objects of the source schema, schema directives "
+            "applied by extensions only to what the extension wrote, inline directive definitions registered, defaults re-evaluated after extensions.",
+     "Known findings T13, T14 (a default mentioning an enum value / input field that a transform removed), T15-residue. Repaired: T6-T12, T15.")
+_add("C15", "strict_string_stays_string (litOfStrict: what introspection reports for custom-scalar strings), meta_below_non_query_not_a_field, "
+            "typename_everywhere, oracle for defaults without a literal form (a field error at that defaultValue, everything else reported).",
+     "Known finding I10 (@deprecated(reason: null) built as not deprecated). Repaired: I7, I8, I9, I11, I12.")
+_add("C16", "slow / abort block (request-aborting sibling x slow sibling x runtime x executor), every field hook inside the execution stage.",
+     "Known findings N3 (stages left open when processing RAISES), N4 (thread pool: end hook of a sibling in flight fires after on_execution_end; asyncio: "
+     "never-awaited sibling of a synchronous abort). Repaired: H1, H2, H3.")
+_add("C17", "refusals_uncomputable (unevaluable root directive / uncoercible argument: ExecutionError before the resolver), refused_before_variables "
+            "(operation selection, kind, runtime, variables: in that order), request-aborting events as results, meta root fields, sources with a "
+            "setting-up __aiter__, resolvers mutating list arguments across events.",
+     "Repaired: H1-H8.")
+_add("C18", "chained_order_personal / chained_skip_personal (repaired SkipNode semantics, observed flag chainPersonalSkip), model_total / "
+            "visit_never_out_of_fuel (the model traversal is total at every depth), deep-nesting stream with measured boundaries.",
+     "Known finding W9 (RecursionError, enters without leaves, on deeply nested documents the parser accepts). Repaired: W2b, W3b, W7, W8.")
+_add("C19", "the leniency of selected_fields is re-extracted (lenientSelectedFields): selectedFields_sim, selected_fields_exact_lenient, "
+            "selected_fields_lenient_eq_strict; flags_iff_final (exact depth for acyclic documents, no bound), unbounded_only_if_invalid, "
+            "cyclic_repaired_reports, deep acyclic chain probe up to depth 3000.",
+     "Repaired: Q2 (RecursionError on fragment cycles, exponential time), Q3 (deep acyclic documents reported unbounded).")
+_add("C20", "compatible retypings are reported (compatibleRetypeSeverity re-extracted from _compatible): compatibly_retyped_*_reported and any_retyped_*_reported "
+            "for fields, arguments, input fields and directive arguments; ordered reports under five PYTHONHASHSEED values in fresh interpreters; code-built "
+            "schemas against the schema built from their own SDL; defaults enter the model as GraphQL values of their position (gql_canon_default, independent "
+            "of the library's printer).",
+     "Known findings G1, G4 (pinned). Repaired: G2, G3, G5, Python-equal defaults, subclass kinds, hash-dependent order, defaults as GraphQL values.")
